@@ -53,27 +53,36 @@ func MechRefactor(kind, dir string) (int, error) {
 				continue
 			}
 			n := 0
-			switch kind {
-			case "rename-locals":
-				n = mechRename(f, pk.TypesInfo, pk.Types)
-			case "rotate-select":
-				n = mechRotateSelect(f)
-			case "invert-if":
-				n = mechInvertIf(f)
-			case "swap-compare":
-				n = mechSwapCompare(f, pk.TypesInfo)
-			case "nest-else":
-				n = mechNestElse(f, pk.TypesInfo)
-			case "reverse-decls":
-				n = mechReverseDecls(f)
-			case "switch-to-if":
-				n = mechSwitchToIf(f, pk.TypesInfo)
-			case "split-and":
-				n = mechSplitAnd(f)
-			case "unlock-to-defer":
-				n = mechUnlockToDefer(f, p.Fset)
-			default:
-				return 0, fmt.Errorf("unknown rewrite %q", kind)
+			kinds := []string{kind}
+			if kind == "all" {
+				// one load, every rewrite in turn on the same syntax trees (the type
+				// information stays valid: nodes are mutated in place, new nodes are
+				// treated conservatively by the later rewrites)
+				kinds = []string{"switch-to-if", "split-and", "invert-if", "nest-else", "unlock-to-defer", "rotate-select", "swap-compare", "rename-locals", "reverse-decls"}
+			}
+			for _, k := range kinds {
+				switch k {
+				case "rename-locals":
+					n += mechRename(f, pk.TypesInfo, pk.Types)
+				case "rotate-select":
+					n += mechRotateSelect(f)
+				case "invert-if":
+					n += mechInvertIf(f)
+				case "swap-compare":
+					n += mechSwapCompare(f, pk.TypesInfo)
+				case "nest-else":
+					n += mechNestElse(f, pk.TypesInfo)
+				case "reverse-decls":
+					n += mechReverseDecls(f)
+				case "switch-to-if":
+					n += mechSwitchToIf(f, pk.TypesInfo)
+				case "split-and":
+					n += mechSplitAnd(f)
+				case "unlock-to-defer":
+					n += mechUnlockToDefer(f, p.Fset)
+				default:
+					return 0, fmt.Errorf("unknown rewrite %q", kind)
+				}
 			}
 			if n == 0 {
 				continue
